@@ -401,8 +401,42 @@ func c14Run(line string) string {
 		case <-time.After(5 * time.Second):
 			return "viol hang DoNotation-never-returned"
 		}
+	case "donottarget":
+		// the coroutine DoNotation hands to its effect is the TARGET of another goroutine's YieldFrom: the effect
+		// serves it with YieldRef; IsStarted() is observed inside the running effect
+		v, _ := strconv.Atoi(par["v"])
+		selfCh := make(chan *fpgo.CorDef[int], 1)
+		started := false
+		res := make(chan int, 1)
+		go func() {
+			var c fpgo.CorDef[int]
+			res <- c.DoNotation(func(self *fpgo.CorDef[int]) int {
+				started = self.IsStarted()
+				selfCh <- self
+				return self.YieldRef(v + 100)
+			})
+		}()
+		yres := make(chan int, 1)
+		go func() {
+			tg := <-selfCh
+			me := fpgo.CorNewGenerics[int](func() {})
+			yres <- me.YieldFrom(tg, v)
+		}()
+		var r, y int
+		for k := 0; k < 2; k++ {
+			select {
+			case r = <-res:
+				res = nil
+			case y = <-yres:
+				yres = nil
+			case <-time.After(5 * time.Second):
+				return "viol hang DoNotation-as-target"
+			}
+		}
+		return fmt.Sprintf("ok ret=%d y=%d started=%s", r, y, c14Bool(started))
 	case "yfio":
-		// on=1: the IO is observed on a Handler (its effect runs on the handler's goroutine, YieldFromIO has to wait
+		// self=util|done|fresh: YieldFromIO called on the utils instance fpgo.Cor / a finished / a never started
+		// coroutine instead of inside a DoNotation effect.  on=1: the IO is observed on a Handler (its effect runs on the handler's goroutine, YieldFromIO has to wait
 		// for it); flat=1: the IO is a FlatMap chain (v -> v+1); slow=<ms>: the IO takes that long
 		v, _ := strconv.Atoi(par["v"])
 		slow, _ := strconv.Atoi(par["slow"])
@@ -425,8 +459,28 @@ func c14Run(line string) string {
 		}
 		res := make(chan int, 1)
 		go func() {
-			var c fpgo.CorDef[int]
-			res <- c.DoNotation(func(self *fpgo.CorDef[int]) int { return self.YieldFromIO(io) })
+			switch par["self"] {
+			case "util":
+				// the package-level utils instance fpgo.Cor (a zero-value CorDef: no channels, never started)
+				uio := fpgo.MonadIONewGenerics(func() interface{} { return io.Eval() })
+				r, _ := fpgo.Cor.YieldFromIO(uio).(int)
+				res <- r
+			case "done":
+				// a coroutine whose effect has returned long ago
+				c := fpgo.CorNewGenerics[int](func() {})
+				c.Start()
+				for dl := time.Now().Add(3 * time.Second); !c.IsDone() && time.Now().Before(dl); {
+					time.Sleep(100 * time.Microsecond)
+				}
+				time.Sleep(2 * time.Millisecond)
+				res <- c.YieldFromIO(io)
+			case "fresh":
+				// a coroutine that was never started
+				res <- fpgo.CorNewGenerics[int](func() {}).YieldFromIO(io)
+			default:
+				var c fpgo.CorDef[int]
+				res <- c.DoNotation(func(self *fpgo.CorDef[int]) int { return self.YieldFromIO(io) })
+			}
 		}()
 		select {
 		case r := <-res:
@@ -511,6 +565,13 @@ func c14Gen(tier string, rng *rand.Rand, emit func(string)) map[string]interface
 	e("yfio v=0")
 	e("yfio v=8 on=1")
 	e("yfio v=9 on=1 slow=30")
+	e("yfio v=12 self=util")
+	e("yfio v=13 self=done")
+	e("yfio v=14 self=fresh")
+	e("yfio v=15 self=util on=1 slow=10")
+	e("yfio v=16 self=done flat=1")
+	e("donottarget v=5")
+	e("donottarget v=0")
 	e("yfio v=10 flat=1")
 	e("yfio v=11 flat=1 on=1 slow=10")
 	e("flags")
